@@ -121,7 +121,7 @@ def wide_strategy(draw, name, dmax):
 
 CHECKS = {'check_c03': check_c03}
 # (descriptors per estimator, dmax)
-_B = {'quick': (3, 5), 'thorough': (12, 8)}
+_B = {'quick': (3, 5), 'thorough': (40, 8)}
 _FEW = ('Covariance', 'RCA', 'RCA_Supervised', 'ITML', 'ITML_Supervised', 'MMC', 'MMC_Supervised', 'SDML',
         'SDML_Supervised', 'LSML', 'LSML_Supervised', 'SCML', 'SCML_Supervised')
 
@@ -134,7 +134,7 @@ def run_shard(shard, tier, seed, stats, known_sigs):
   n, dmax = _B[tier]
   name = shard['est']
   if shard.get('wide'):
-    return drive(check_c03, wide_strategy(name, dmax), {'quick': 60, 'thorough': 1500}[tier], seed, stats, known_sigs,
+    return drive(check_c03, wide_strategy(name, dmax), {'quick': 60, 'thorough': 4000}[tier], seed, stats, known_sigs,
                  name='check_c03')
   if name in _FEW:      # small option products: more descriptors
     n *= 4
